@@ -14,8 +14,12 @@ Definition seg_bytes (m : N) (data : list byte) : list byte := [xff; byte_ofN m]
 (* any marker that carries a length, any data that fits the 16-bit length field *)
 Definition seg_ok (m : N) (data : list byte) : Prop := marker_has_length m = true /\ lenN data + 2 < 65536.
 Notation item := (N * list byte)%type (only parsing).
-Definition item_bytes (it : item) : list byte := seg_bytes (fst it) (snd it).
-Definition item_ok (it : item) : Prop := seg_ok (fst it) (snd it) /\ fst it <> 0xda.
+(* a bare marker (RST0..7, a repeated SOI) is two bytes and carries no data *)
+Definition bare_item (t : N) : bool := ((0xd0 <=? t) && (t <=? 0xd7)) || (t =? 0xd8).
+Definition item_bytes (it : item) : list byte :=
+  if bare_item (fst it) then [xff; byte_ofN (fst it)] else seg_bytes (fst it) (snd it).
+Definition item_ok (it : item) : Prop :=
+  if bare_item (fst it) then snd it = [] else seg_ok (fst it) (snd it) /\ fst it <> 0xda.
 Definition soi : list byte := [xff; xd8]%byte.
 
 (* one iteration of the segment loop on a segment that is not SOS/EOI *)
@@ -97,6 +101,25 @@ Proof.
     + reflexivity.
 Qed.
 
+Lemma bare_props t : bare_item t = true -> t < 256 /\ marker_bare t = true /\ (t =? 0xda) = false /\ (t =? 0xd9) = false /\
+  ((t =? 0xc0) || (t =? 0xc2)) = false /\ (t =? 0xe2) = false.
+Proof. unfold bare_item, marker_bare. lia. Qed.
+Lemma bare_step t f sf s tail : bare_item t = true ->
+  rp (jpeg_segments (S f) sf false s) ([xff; byte_ofN t] ++ tail) = rp (jpeg_segments f sf false s) tail.
+Proof.
+  intros Hb. destruct (bare_props t Hb) as (Hlt & Hmb & Eda & Ed9 & Ec & Ee).
+  cbn [jpeg_segments app]. rewrite run_pure_bind. unfold read_segment, read_segment_plain, read_marker.
+  erewrite rbind_ok; cycle 1.
+  { erewrite rbind_ok; cycle 1.
+    { erewrite rbind_ok by apply rd_b_cons. change (bN xff =? 255) with true. cbn [negb].
+      erewrite rbind_ok by apply rd_b_cons. rewrite bN_byte_ofN by exact Hlt.
+      unfold make_marker. rewrite Hmb. reflexivity. }
+    reflexivity. }
+  unfold ok. cbn [fst run_pure]. rewrite Ec, Ed9, Eda, Ee. reflexivity.
+Qed.
+Lemma js_next_bare s t : bare_item t = true -> js_next s t [] = inl s.
+Proof. intros Hb. destruct (bare_props t Hb) as (_ & _ & _ & _ & Ec & Ee). unfold js_next. rewrite Ec, Ee. reflexivity. Qed.
+
 Lemma sos_step d f sf s body : seg_ok 0xda d ->
   rp (jpeg_segments (S f) sf false s) (seg_bytes 0xda d ++ body) = (js_finish s, body).
 Proof.
@@ -115,11 +138,14 @@ Theorem jpeg_loop : forall items s f sf sos body,
 Proof.
   induction items as [|[t d] items IH]; intros s f sf sos body Hok Hsos Hf.
   - destruct f; [cbn in Hf; lia|]. cbn [map concat app js_run]. apply sos_step. exact Hsos.
-  - inversion Hok as [|? ? [Hit Hda] Hrest]; subst. destruct f; [cbn in Hf; lia|].
-    cbn [map concat js_run fst snd]. unfold item_bytes at 1. cbn [fst snd]. rewrite <- app_assoc.
-    rewrite seg_step by assumption.
-    destruct (js_next s t d) as [s'|r]; [|reflexivity].
-    apply IH; [assumption|assumption|cbn in Hf; lia].
+  - inversion Hok as [|? ? Hit Hrest]; subst. destruct f; [cbn in Hf; lia|].
+    cbn [map concat js_run fst snd]. unfold item_bytes at 1. unfold item_ok in Hit. cbn [fst snd] in *.
+    destruct (bare_item t) eqn:Eb.
+    + subst d. rewrite <- app_assoc. rewrite bare_step by exact Eb. rewrite js_next_bare by exact Eb.
+      apply IH; [assumption|assumption|cbn in Hf; lia].
+    + destruct Hit as [Hit Hda]. rewrite <- app_assoc. rewrite seg_step by assumption.
+      destruct (js_next s t d) as [s'|r]; [|reflexivity].
+      apply IH; [assumption|assumption|cbn in Hf; lia].
 Qed.
 
 Definition jpeg_file (items : list item) (sos body : list byte) : list byte :=
